@@ -44,7 +44,7 @@ func init() {
 		ID:          "C42",
 		Explanation: "Decides structural necessary conditions of C42: (FLAGS) the open(2) flags compiled for each redirection mode are exactly what the mode means - < is O_RDONLY; > has O_WRONLY|O_CREATE|O_TRUNC and not O_APPEND; >> has O_WRONLY|O_CREATE|O_APPEND and not O_TRUNC; <> has O_RDWR|O_CREATE and neither O_TRUNC nor O_APPEND - and every mode of the parser's enumeration has a case; (FD-RANGE) every index into the port table with an fd evaluated from the program is guarded on both sides, and the table is never grown by an unbounded fd; (DUP-SELF) the port duplicated by n>&m is never one that the same redirection has just closed (m = n is a no-op); (OPEN-OWNED) a file opened by a redirection is recorded as owned by the form, which closes it when the form finishes; (REPLACE-CLOSES) the old destination port is closed before being replaced; (SENDERR-NONNIL) the port installed by n>&- raises an exception on value output; (PORT-TOTAL) value I/O on whatever port a redirection installs is total: every Port literal of pkg/eval has a non-nil value channel (a nil channel blocks `each ... <&-` forever), and every send on a port's value channel is dominated by the edge that excludes each closed placeholder channel (`put x >&0` turns an input port into the output; a send on its closed channel panics), the sending select is reached only after a non-blocking check of sendStop, and the reading end of a pipe is a stopped port; (FD-VALID) whether a redirection raises \"invalid fd\" depends on the number and on whether the port table has an entry there, never on a field of the port found (a port closed with >&- is a valid source of m>&n). That bytes actually reach the file is not decided.",
 		NotCovered:  "actual data routing at run time; OS-level semantics of the flags",
-		Rules:       []string{"FLAGS", "FD-RANGE", "DUP-SELF", "OPEN-OWNED", "REPLACE-CLOSES", "OWN-PAIR", "SENDERR-NONNIL", "PORT-TOTAL", "FD-VALID"},
+		Rules:       []string{"FLAGS", "FD-RANGE", "DUP-SELF", "OPEN-OWNED", "REPLACE-CLOSES", "OWN-PAIR", "SENDERR-NONNIL", "PORT-TOTAL", "FD-VALID", "FD-POSITIONAL: the file table of an external command has one slot per port, filled by position"},
 		Patterns:    []string{"./pkg/eval/...", "./pkg/mods/..."},
 		Run: func(p *core.Program, r *core.Report) {
 			runRedirFlags(p, r)
@@ -61,10 +61,14 @@ func init() {
 			runSendErrNonNil(p, r)
 			runPortTotal(p, r)
 			runFDValidity(p, r)
+			runFDPositional(p, r)
 		},
-		MinCounts: map[string]int{"FLAGS": 5, "FD-RANGE": 3, "DUP-SELF": 1, "OPEN-OWNED": 1, "REPLACE-CLOSES": 2, "SENDERR-NONNIL": 2, "PORT-TOTAL": 6, "FD-VALID": 2},
+		MinCounts: map[string]int{"FLAGS": 5, "FD-RANGE": 3, "DUP-SELF": 1, "OPEN-OWNED": 1, "REPLACE-CLOSES": 2, "SENDERR-NONNIL": 2, "PORT-TOTAL": 6, "FD-VALID": 2, "FD-POSITIONAL": 1},
 		Trusted:   trustedBase,
 		Controls: []core.Control{
+			{Name: "child-file-table-built-with-append", Rule: "FD-POSITIONAL", File: "pkg/eval/external_cmd.go", Old: "\tfiles := make([]*os.File, len(fm.ports))\n\tfor i, port := range fm.ports {\n\t\tif port != nil {\n\t\t\tfiles[i] = port.File", New: "\tfiles := make([]*os.File, 0, len(fm.ports))\n\tfor _, port := range fm.ports {\n\t\tif port != nil {\n\t\t\tfiles = append(files, port.File)", Fire: true, Want: "one file slot per port", Patterns: []string{"./pkg/eval"}},
+			{Name: "revert-fix-shared-port-closed-on-re-redirection", Rule: "OWN-PAIR", File: "pkg/eval/compile_effect.go", Old: "\t\t\tfor i, port := range fm.ports {\n\t\t\t\tif i != dst && port == *dstPort {\n\t\t\t\t\t*growAccess(fops, i) = *dstFop\n\t\t\t\t\t*dstFop = formOwnedPort{File: false, Chan: false}\n\t\t\t\t\treturn\n\t\t\t\t}\n\t\t\t}\n", New: "", Fire: true, Want: "shares it", Patterns: []string{"./pkg/eval"}},
+			{Name: "revert-fix-put-panics-on-channel-closed-by-owner", Rule: "PORT-TOTAL", File: "pkg/eval/port.go", Old: "\tdefer func() {\n\t\tif recover() != nil {\n\t\t\terr = errs.ReaderGone{}\n\t\t}\n\t}()\n", New: "", Fire: true, Want: "survives", Patterns: []string{"./pkg/eval"}},
 			{Name: "dup-of-closed-port-is-invalid-fd", Rule: "FD-VALID", File: "pkg/eval/compile_effect.go", Old: "case src < 0 || src >= len(fm.ports) || fm.ports[src] == nil:", New: "case src < 0 || src >= len(fm.ports) || fm.ports[src] == nil || fm.ports[src].File == nil:", Fire: true, Want: "invalid fd"},
 			{Name: "benign-src-check-in-helper", Rule: "FD-VALID", File: "pkg/eval/compile_effect.go", Old: "case src < 0 || src >= len(fm.ports) || fm.ports[src] == nil:", New: "case !hasPort(fm.ports, src):", Edits: [][2]string{{"type InvalidFD struct{ FD int }\n", "type InvalidFD struct{ FD int }\n\nfunc hasPort(ports []*Port, i int) bool { return i >= 0 && i < len(ports) && ports[i] != nil }\n"}}, Fire: false},
 			{Name: "revert-fix-put-on-closed-placeholder", Rule: "PORT-TOTAL", File: "pkg/eval/port.go", Old: "\tif vo.data == ClosedChan {", New: "\tif false {", Fire: true, Want: "ClosedChan", Quick: true, Patterns: []string{"./pkg/eval"}},
